@@ -2,7 +2,7 @@
 use crate::fw::Rng;
 use crate::gen::tok;
 
-pub const NON_ASCII: [&str; 6] = ["é", "€", "😀", "\u{2028}", "ß", "日本"];
+pub const NON_ASCII: [&str; 11] = ["é", "€", "😀", "\u{2028}", "ß", "日本", "\u{feff}", "\u{a0}", "\u{85}", "\u{200b}", "\u{0}"];
 pub const UNTERMINATED: [&str; 7] = ["\"", "[{", "/*", "#ifdef X\n", "#else\n", "#ifndef Y", "\"a\\"];
 
 /// Applies 1..=k token-level edits (delete / insert / duplicate / transpose / replace).
